@@ -6,7 +6,10 @@
 //! to a separate instance (a namespaced skeleton graph) rather than embedding a
 //! recursive Rust data structure.
 
+#[cfg(not(feature = "echo_verif_flat"))]
 use std::collections::BTreeMap;
+#[cfg(feature = "echo_verif_flat")]
+use crate::verif_flat::BTreeMap;
 
 use crate::attachment::AttachmentKey;
 use crate::graph::GraphStore;
